@@ -622,7 +622,7 @@ SCOPE = {
     "C04": {"conn": [r"^impl HttpConn / fn write_response \|"]},
     # a failure mid-body leaves a prefix of the one serialisation: that is what the two copy loops promise for reader / writer errors
     "C08": {"chunked": [r"^fn copy_chunked_async \|"], "copy": [r"^fn copy_async \|"]},
-    "C09": {"conn": [r"^fn (read_http_|copy_async)"], "copy": [r"."]},
+    "C09": {"conn": [r"^fn (read_http_|copy_async)", r"^impl HttpConn / fn read_body_to_(vec|file) \|"], "copy": [r"."]},
 }
 
 
